@@ -356,6 +356,32 @@ pub fn check(prop: &str, tier: &str) -> i32 {
     for msg in &inconclusive {
         println!("INCONCLUSIVE property={prop} {msg}");
     }
+    // A run that did not enter the windows its property is about is not a pass: every property
+    // names observations (guard-decisive events, workload counters) that must be non-zero.
+    let required: &[&str] = match prop {
+        "C02" => &["finality_refused_by_timestamp", "rewinds_after_new_write_location", "validation_conflicts", "validation_claims_dropped_by_status"],
+        "C03" => &["exec_errors_invalid_tx", "commit_nonce_fallbacks", "sequential_skips"],
+        "C04" => &["runs_on_stale_only_keys", "transient_absorbed", "persistent_err"],
+        "C05" => &["coordinator_parks", "panics_propagated", "aborts"],
+        "C07" => &["committed_reads_from_beneficiary_history", "history_resolves_with_chain_gt1"],
+        "C10" => &["cache_stress_destroy_create_commits", "lifecycle_events_destroy_create_emptytouch", "two_block_runs"],
+        "C11" => &["precompile_calls_in_order", "static_context_refusals"],
+        "C12" => &["runs_with_halted_delegated_create"],
+        "C13" => &["first_reserve_violations_checked"],
+        "C14" => &["histories_with_overlapping_calls", "rejected_calls"],
+        "C15" => &["histories_with_rewind_overlapping_claim", "histories_with_out_of_order_publish"],
+        "C16" => &["parked_behind_commit_boundary", "claims_by_direct_handoff", "dep_released_by_commit"],
+        "C17" => &["notify_before_registration", "notify_between_check_and_park", "notify_while_parked"],
+        _ => &[],
+    };
+    let lookup = |k: &str| -> u64 {
+        merged_stats.get(k).and_then(|v| v.as_u64()).or_else(|| other.get("extra").and_then(|e| e.get(k)).and_then(|v| v.as_u64())).unwrap_or(0)
+    };
+    let missing: Vec<&str> = required.iter().copied().filter(|k| lookup(k) == 0).collect();
+    if !missing.is_empty() && violations == 0 {
+        println!("INCONCLUSIVE property={prop} required observations were not made in this run: {missing:?}");
+        inconclusive.push(format!("required observations missing: {missing:?}"));
+    }
     let observed_enough = evaluations > 0 && distinct_nt.len() >= 2;
     if !observed_enough {
         println!("INCONCLUSIVE property={prop} the run observed too little (evaluations={evaluations}, distinct non-trivial={})", distinct_nt.len());
